@@ -39,14 +39,18 @@ structure Nb where
   upLeft : Int
 deriving Repr, DecidableEq
 
-/-- lossless/encoder.go `encodeScan`, "Get neighbor values for prediction" … "Apply predictor" -/
+/-- lossless/encoder.go `encodeScan`, "Get neighbor values for prediction" … "Apply predictor"
+    (since fix 946feeb: first sample 2^(P-1), first line Ra, line start Rb, else the selected predictor) -/
 def encPredicted (precision predictor row col : Int) (nb : Nb) : Int :=
   let defaultVal := Go.shl 1 (precision - 1)
   let ra := if col > 0 then nb.left
             else if row > 0 ∧ predictor = 1 then nb.up else defaultVal
   let rb := if row > 0 then nb.up else defaultVal
   let rc := if row > 0 ∧ col > 0 then nb.upLeft else defaultVal
-  if col = 0 ∧ row = 0 then defaultVal else Predictor predictor ra rb rc
+  if col = 0 ∧ row = 0 then defaultVal
+  else if row = 0 then ra
+  else if col = 0 then rb
+  else Predictor predictor ra rb rc
 
 /-- lossless/decoder.go `decodeScan`, same block (a second copy in the source) -/
 def decPredicted (precision predictor row col : Int) (nb : Nb) : Int :=
@@ -55,7 +59,10 @@ def decPredicted (precision predictor row col : Int) (nb : Nb) : Int :=
             else if row > 0 ∧ predictor = 1 then nb.up else defaultVal
   let rb := if row > 0 then nb.up else defaultVal
   let rc := if row > 0 ∧ col > 0 then nb.upLeft else defaultVal
-  if col = 0 ∧ row = 0 then defaultVal else Predictor predictor ra rb rc
+  if col = 0 ∧ row = 0 then defaultVal
+  else if row = 0 then ra
+  else if col = 0 then rb
+  else Predictor predictor ra rb rc
 
 /-- lossless/encoder.go `optimizeHuffmanTables` (third copy, differently written) -/
 def freqPredicted (precision predictor row col : Int) (nb : Nb) : Int :=
@@ -65,7 +72,10 @@ def freqPredicted (precision predictor row col : Int) (nb : Nb) : Int :=
   let rb := if row > 0 then nb.up else defaultVal
   let rc := if row > 0 ∧ col > 0 then nb.upLeft else defaultVal
   let predicted := defaultVal
-  if row ≠ 0 ∨ col ≠ 0 then Predictor predictor ra rb rc else predicted
+  if row = 0 ∧ col > 0 then ra
+  else if row > 0 ∧ col = 0 then rb
+  else if row > 0 then Predictor predictor ra rb rc
+  else predicted
 
 /-- lossless14sv1/encoder.go `encodeScan` (`preds[comp]` is the previous sample of the row) and
     lossless14sv1/decoder.go `decodeScan` (`comp.data[row*w+col-1]`): same `if` tree. -/
